@@ -45,8 +45,8 @@ V_interval_more(e) ==
     Fail(~SeqOK(e.iter, e.a, Tol), "impl.interval_iter") \cup
     Fail(e.repr_n # e.n \/ ~SeqOK(e.repr_vals, e.a, Tol), "impl.interval_repr") \cup
     Fail(e.idx3 # "IndexError" \/ e.set3 # "IndexError", "impl.interval_index_arity") \cup
-    Fail(Len(e.a) > e.n /\ ~SeqOK(e.ext_lin, ExtendLinspace(e.a, e.n, e.ext_dir, None, None), Tol), "impl.interval_extend_linspace") \cup
-    Fail(~SeqOK(e.ext_const, ExtendConstant(e.a, e.n, e.ext_dir), Tol) \/ e.ext_n # e.n, "impl.interval_extend_constant") \cup
+    Fail(Len(e.a) > e.n /\ ~SeqOK(e.ext_lin, ExtendLinspace(e.a, e.n, e.ext_dir, None, None), Tol), "C17.interval_extend_linspace") \cup
+    Fail(~SeqOK(e.ext_const, ExtendConstant(e.a, e.n, e.ext_dir), Tol) \/ e.ext_n # e.n, "C17.interval_extend_constant") \cup
     Fail(~SeqOK(e.from_list, e.a, Tol) \/ e.from_list_kind # "ndarray", "impl.interval_from_list")
 
 V_average(e) ==
